@@ -22,10 +22,10 @@ ASSUMPTIONS = ['amplifier bands are those of the library entry named by each amp
 
 
 @st.composite
-def band_case(draw, invalid=False):
-    edges = draw(bandnets.band_edges(same_fmax=draw(st.booleans())))
-    multiband = draw(st.booleans())
-    classes = ['CL', 'CL', 'CLred', 'CL'] if multiband else ['auto', 'C', 'Cred', 'Cred2', 'Cshort', 'auto']
+def band_case(draw, invalid=False, three=False):
+    edges = draw(bandnets.band_edges(same_fmax=draw(st.booleans()), third_band=three))
+    multiband = True if three else draw(st.booleans())
+    classes = ['CLS'] if three else ['CL', 'CL', 'CLred', 'CL'] if multiband else ['auto', 'C', 'Cred', 'Cred2', 'Cshort', 'Cshort', 'auto']
     topo, truth = draw(bandnets.band_topology(classes, edges, n=(2, 4), extra_max=2))
     src = draw(st.integers(0, truth['n'] - 1))
     dst = draw(st.integers(0, truth['n'] - 2))
@@ -35,25 +35,35 @@ def band_case(draw, invalid=False):
     regions = [('C', edges['C']), ('Cred', edges['Cred']), ('Cshort', edges['Cshort'])]
     if multiband:
         regions += [('L', edges['L']), ('Lred', edges['Lred'])]
+    if three:
+        regions = [('C', edges['C']), ('L', edges['L']), ('S', edges['S']), ('S', edges['S'])]
     # where the carriers start: exactly on a band edge, just below it, or anywhere
     name, band = draw(st.sampled_from(regions))
     lo_m, hi_m = int(band[0] / 1e6), int(band[1] / 1e6)
-    start = draw(st.sampled_from([lo_m, lo_m, lo_m - 1, lo_m + 1, lo_m - 20000, lo_m + 40000, hi_m - 300000]))
+    start = draw(st.sampled_from([lo_m, lo_m, lo_m - 1, lo_m + 1, lo_m - 20000, lo_m + 40000, hi_m - 300000, hi_m - 300000,
+                                  hi_m - 150000, hi_m - 600000]))
     stop = draw(st.sampled_from([None, hi_m, hi_m, hi_m + 1, hi_m + 100000]))
     comb1 = draw(spectra.comb(1, 40, f_start=(start, start), power=(-3.0, 3.0), f_stop=stop))
     combs.extend(comb1)
-    if multiband and draw(st.booleans()):
-        other = edges['L'] if name.startswith('C') else edges['C']
+    groups_so_far = [comb1]
+    for other_name in (['L', 'C', 'S'] if three else ['other']):
+        if not (multiband and draw(st.booleans())) or other_name == name:
+            continue
+        other = edges[other_name] if three else edges['L'] if name.startswith('C') else edges['C']
         lo2 = int(other[0] / 1e6)
-        top = max(c['f'] + c['slot'] / 2 for c in combs) / 1e6
-        bottom = min(c['f'] - c['slot'] / 2 for c in combs) / 1e6
+        if three:
+            groups = [(min(c['f'] - c['slot'] / 2 for c in g) / 1e6, max(c['f'] + c['slot'] / 2 for c in g) / 1e6)
+                      for g in groups_so_far]
+        else:
+            groups = [(min(c['f'] - c['slot'] / 2 for c in combs) / 1e6, max(c['f'] + c['slot'] / 2 for c in combs) / 1e6)]
         s2 = draw(st.sampled_from([lo2, lo2 - 50000, lo2 + 100000]))
         comb2 = draw(spectra.comb(1, 12, f_start=(s2, s2), power=(-3.0, 3.0)))
-        # keep the two groups apart (no overlap by construction)
+        # keep the groups apart (no overlap by construction)
         lo_c2 = min(c['f'] - c['slot'] / 2 for c in comb2) / 1e6
         hi_c2 = max(c['f'] + c['slot'] / 2 for c in comb2) / 1e6
-        if hi_c2 <= bottom or lo_c2 >= top:
+        if all(hi_c2 <= bottom or lo_c2 >= top for bottom, top in groups):
             combs.extend(comb2)
+            groups_so_far.append(comb2)
     perm = draw(st.permutations(list(range(len(combs)))))
     combs = [combs[i] for i in perm]
     case = {'edges': edges, 'topo': topo, 'truth': truth, 'src': src, 'dst': dst, 'comb': combs,
@@ -201,7 +211,9 @@ def run(case, ctx):
 
 
 CHECKS = [
-    Check('survival', band_case(), run, quick=1200, thorough=40000, doc='channel set after pre-filter and after every element'),
+    Check('survival', band_case(), run, quick=3000, thorough=60000, doc='channel set after pre-filter and after every element'),
+    Check('three-band', band_case(three=True), run, quick=150, thorough=5000,
+          doc='lines of three-band amplifiers (C, L and a third band, constituents listed in any order)'),
     Check('invalid-spectrum', band_case(invalid=True), run, quick=200, thorough=5000,
           doc='overlapping carriers or baud rate wider than the slot are rejected with SpectrumError'),
 ]
